@@ -42,7 +42,9 @@ impl Models8 {
     fn new() -> Self {
         Models8 {
             cat: ContiguousCategoricalEntropyModel::from_nonzero_fixed_point_probabilities([100u8, 1, 55, 100], false).unwrap(),
-            lookup: ContiguousLookupDecoderModel::from_nonzero_fixed_point_probabilities([100u8, 1, 55, 100], false).unwrap(),
+            // built by CONVERSION from a contiguous model at PRECISION == Probability::BITS (the directly constructed
+            // lookup models are those of `Models16` and of the C03/C05 sweeps)
+            lookup: ContiguousCategoricalEntropyModel::<u8, Vec<u8>, 8>::from_nonzero_fixed_point_probabilities([100u8, 1, 55, 100], false).unwrap().to_lookup_decoder_model(),
             nclookup: NonContiguousLookupDecoderModel::from_symbols_and_nonzero_fixed_point_probabilities([70u32, 3, 900, 12], [7u8, 1, 16, 8], false).unwrap(),
             ncdec: NonContiguousCategoricalDecoderModel::from_symbols_and_nonzero_fixed_point_probabilities([70u32, 3, 900], [1u8, 6, 1], false).unwrap(),
             lazy: LazyContiguousCategoricalEntropyModel::from_floating_point_probabilities_fast(vec![0.3f32, 0.2, 0.5], None).unwrap(),
